@@ -22,9 +22,12 @@ def ncc_landscape(
     if max_shifts is not None:
         max_shifts = tuple(max_shifts)
     pad_width = _get_padding_width(max_shifts)
-    padimg = backend.pad(
-        img0, pad_width=pad_width, mode="constant", constant_values=constant_values
-    )
+    if constant_values != 0:
+        # NCC does not depend on a constant offset of img0. Removing it keeps the
+        # padded region exactly flat, otherwise rounding errors in the window
+        # sums show up as tiny positive variances and the response explodes.
+        img0 = img0 - constant_values
+    padimg = backend.pad(img0, pad_width=pad_width, mode="constant", constant_values=0)
     return ncc_landscape_no_pad(padimg, img1, backend=backend)
 
 
